@@ -44,6 +44,13 @@ CHECKS = {
         note=TRUST + "; assumed external contract of scipy.linalg.eigh; closed forms of norm/cross/det",
         technique="contract-based deductive verification (AST symbolic execution -> z3 VCs) + Lean lemma over contracts + bounded stand-in for float behaviour",
     ),
+    "C13": dict(
+        category="other",
+        text="Order and laziness of the API (one object per frame in order; first frame checked before open, then one pull per written frame) are the proved obligations of C07/C08, re-run here; the six format-level load_many functions are executed symbolically with load_one havoc'ed: every yielded frame is one load_one result on the shared cursor, exceptions of load_one propagate, and the handlers that end the sequence may fire only at a frame boundary. The last obligation is refuted for all six formats (open known findings: a file cut inside its last frame ends the sequence silently), hence category `other`. Per-frame data equality is a bounded stand-in.",
+        design_ref="DESIGN.md 6/C13",
+        note=TRUST + "; load_one by havoc contract with a ghost `partial` flag; fchk.load_many only structurally (AST)",
+        technique="contract-based deductive verification (event traces, havoc'ed load_one with ghost state) + bounded generated trajectories with truncation and corruption",
+    ),
     "C14": dict(
         category="proof",
         text="convert_to_segmented (generic-iteration rule over shells and contractions: per-shell outputs are the same object or one new shell per contraction with the same center, angular momentum, kind, exponents and coefficient column, in order), convert_to_unrestricted (all kinds and array contents, compared through the real getters incl. electron count and spin polarisation via summation lemmas), and the prepare_* protocol (identity short-cut, PrepareDumpError, exactly one PrepareDumpWarning, shallow copy) are verified for all inputs; idempotence lemmas over the contracts.",
